@@ -493,6 +493,7 @@ def make_dict_structure_fn_from_attrs(
             pi_lines.append("  return instance")
     else:
         non_required = []
+        kw_invocation_lines = []
         # The first loop deals with required args.
         for a in attrs:
             an = a.name
@@ -559,8 +560,12 @@ def make_dict_structure_fn_from_attrs(
                     invocation_line = f"o[{kn!r}],"
 
                 if a.kw_only:
-                    invocation_line = f"{a.alias}={invocation_line}"
-                invocation_lines.append(invocation_line)
+                    # Keyword arguments have to follow all positional ones.
+                    kw_invocation_lines.append(f"{a.alias}={invocation_line}")
+                else:
+                    invocation_lines.append(invocation_line)
+
+        invocation_lines.extend(kw_invocation_lines)
 
         # The second loop is for optional args.
         if non_required:
